@@ -124,21 +124,16 @@ func (its *WiredDatatype) checkOptionAndError(ppp *model.PushPullPack) errors.Or
 		errOp, ok := operations.ModelToOperation(modelOp).(*operations.ErrorOperation)
 		if ok {
 			switch errOp.GetPushPullError().Code {
-			case errors.PushPullAbortionOfServer:
-				// TODO: implement me.
-			case errors.PushPullAbortionOfClient:
-				// TODO: implement me.
 			case errors.PushPullDuplicateKey:
 				return errors.DatatypeCreate.New(its.L(), fmt.Sprintf("duplicated key:'%s'", its.Key))
-			case errors.PushPullMissingOps:
-				// TODO: implement me.
 			case errors.PushPullNoDatatypeToSubscribe:
 				return errors.DatatypeSubscribe.New(its.L(), fmt.Sprintf("%v", errOp.GetPushPullError().Msg))
 			}
-			panic("Not implemented yet")
-		} else {
-			panic("Not implemented yet")
+			// PushPullAbortionOfServer, PushPullAbortionOfClient, PushPullMissingOps, ...:
+			// nothing is applied; the error is reported and the next sync retries
+			return errors.ClientSync.New(its.L(), fmt.Sprintf("%v", errOp.GetPushPullError().Msg))
 		}
+		return errors.ClientSync.New(its.L(), "error response without an error operation")
 	} else if ppp.GetPushPullPackOption().HasSubscribeBit() {
 		modelOp := ppp.GetOperations()[0]
 		_, ok := operations.ModelToOperation(modelOp).(*operations.SnapshotOperation)
